@@ -1,25 +1,8 @@
 (* C16: the 12-byte date-time layout, the round trip for every valid date-time / offset /
    status, and soundness of decoding (out-of-range fields are refused). *)
-From Dlms Require Import Base FieldsModel FieldsProofs TimeModel.
+From Dlms Require Import Base FieldsModel FieldsProofs TimeModel TimeSpec.
 From Coq Require Import ZifyBool ZifyN.
 Ltac Zify.zify_post_hook ::= Z.to_euclidean_division_equations.
-
-(* ---------- reference layout (Blue Book 4.1.6.1) ---------- *)
-Definition std_deviation (off : option Z) : bytes :=
-  match off with
-  | None => [128; 0]                                   (* 0x8000 = not specified *)
-  | Some o => be_bytes 2 (Z.to_N ((- o) mod 65536))    (* minus the UTC offset, two's complement *)
-  end.
-Definition std_datetime (x : dtime) (st : cstat) : bytes :=
-  let '(y, m, d, h, mi, s, us, off) := x in
-  [y / 256; y mod 256; m; d; 255; h; mi; s; us / 10000] ++ std_deviation off ++ [cstat_to_byte st].
-
-Definition off_ok (off : option Z) : bool :=
-  match off with None => true | Some o => ((-1440 <? o) && (o <? 1440))%Z end.
-Definition dt_valid (x : dtime) : bool :=
-  let '(y, m, d, h, mi, s, us, off) := x in date_valid y m d && time_valid h mi s us && off_ok off.
-Definition trunc10ms (x : dtime) : dtime :=
-  let '(y, m, d, h, mi, s, us, off) := x in (y, m, d, h, mi, s, us / 10000 * 10000, off).
 
 Lemma in_range_spec lo hi v : in_range lo hi v = true <-> lo <= v <= hi.
 Proof. unfold in_range. rewrite andb_true_iff, !N.leb_le. tauto. Qed.
